@@ -122,6 +122,11 @@ for i, sh_cases in enumerate(shards):
     shard_sizes["s%02d" % i] = len(sh_cases)
     files["s%02d" % i] = HEADER + "Definition cases : list dom_case := [\n" + ";\n".join(case_v(c) for c in sh_cases) + \
         "].\nDefinition V := Eval vm_compute in violations cases.\nPrint V.\n"
+big = data.get("Big")
+if big:
+    files["big"] = HEADER + "Definition S : list sample := [\n" + ";\n".join(
+        "mkS %d %d %s %d %d %d %d" % (p[0], p[1], "true" if p[2] else "false", p[3], p[4], p[5], p[6]) for p in big["Pairs"]) + \
+        "].\nDefinition B := Eval vm_compute in firstn 8 (sample_diag 0 S).\nPrint B.\n"
 results = ck.coq_cases_parallel(files, timeout=3000)
 # a shard that did not finish (e.g. killed under memory pressure) is retried once, alone
 for name in [n for n, (rc, out) in results.items() if rc != 0]:
@@ -144,6 +149,16 @@ def source_of(c):
 accepted = 0
 eval_failed = []
 for name, (rc, out) in sorted(results.items()):
+    if name == "big":
+        B = ck.printed_value(out, "B")
+        if rc != 0 or B is None:
+            eval_failed.append((name, out[-2000:]))
+        elif B != "[]":
+            ck.violation("big|" + B.split()[0].lstrip("["), "sampled dominance observation of %s (%d blocks, mode N) violates necessary conditions: %s"
+                         % (big["Func"], big["Blocks"], B[:300]),
+                         {"function": big["Func"], "mode": "N", "blocks": big["Blocks"], "n_if": big["NIf"], "source": big["Source"],
+                          "failed": B, "pairs": big["Pairs"][:60], "rerun": "VERIF_SEED=%d ./check C14 --tier %s" % (ck.seed, ck.tier)})
+        continue
     V = ck.printed_value(out, "V")
     if rc != 0 or V is None:
         eval_failed.append((name, out[-2000:]))
@@ -197,4 +212,6 @@ ck.finish({
     "max_blocks": max([c["Stats"]["Blocks"] for c in cases] or [0]),
     "skipped_over_block_limit": data["Skipped"],
     "block_limit": data["MaxBlocks"],
+    "big_function_sample": ({"function": big["Func"], "blocks": big["Blocks"], "sampled_pairs": len(big["Pairs"]),
+                             "checked": "necessary conditions SRoot/SRefl/SInterval/SAntisym only (not tree_check)"} if big else None),
 })
